@@ -2,6 +2,8 @@ import ScnVerif.Model.QVec
 import ScnVerif.Real.Basic
 import ScnVerif.Lemmas.QVec
 import ScnVerif.Lemmas.LArr
+import ScnVerif.Lemmas.TofPhys
+import ScnVerif.Props.C03
 import Mathlib.Tactic.FieldSimp
 import Mathlib.Tactic.Ring
 import Mathlib.Tactic.Linarith
@@ -78,6 +80,24 @@ theorem norm_Qvec_angle (lam : ℝ) (bi bf : V3 ℝ) (hl : 0 < lam) (hi : 0 < V3
   obtain ⟨hlo, hhi⟩ := cosAngle_mem bi bf hi hf
   exact norm_Qvec_eq_Q lam bi bf _ hl hi hf (Real.arccos_nonneg _)
     (by linarith [Real.arccos_le_pi (cosAngle bi bf), Real.pi_pos]) (Real.cos_arccos hlo hhi)
+
+/-- "its norm equals the scalar Q for the same beams", with no free hypothesis: for non-zero beams the norm
+of the Q-vector of the model equals `Q_from_wavelength` (agent A's kernel, angle unit rad) evaluated at the
+`two_theta` of the beamline model (Kahan's formula, agent C), i.e. `4π sin(two_theta/2)/λ` -/
+theorem norm_Qvec_eq_Q_of_two_theta (lam : ℝ) (bi bf : V3 ℝ) (hl : 0 < lam) (hi : bi ≠ V3R.zero)
+    (hf : bf ≠ V3R.zero) :
+    V3.norm (qElements lam bi bf) = Tof.qFromWavelength 1 lam (Beamline.twoTheta bi bf)
+      ∧ V3.norm (qElements lam bi bf) = 4 * Real.pi * Real.sin (Beamline.twoTheta bi bf / 2) / lam := by
+  have hni := V3R.norm_pos hi
+  have hnf := V3R.norm_pos hf
+  have hr := C03.two_theta_mem_Icc bi bf
+  have hcos : Real.cos (Beamline.twoTheta bi bf) = cosAngle bi bf := C03.cos_two_theta bi bf hi hf
+  have key := norm_Qvec_eq_Q lam bi bf (Beamline.twoTheta bi bf) hl hni hnf hr.1
+    (by linarith [hr.2, Real.pi_pos]) hcos
+  refine ⟨?_, key⟩
+  have hq := TofPhys.Q_from_wavelength_phys 1 1 lam (Beamline.twoTheta bi bf) one_pos hl
+  simp only [div_one, mul_one] at hq
+  rw [hq, key]
 
 /-- the result does not depend on the lengths of the beams -/
 theorem Qvec_beam_length_invariant (lam a b : ℝ) (bi bf : V3 ℝ) (ha : 0 < a) (hb : 0 < b)
@@ -225,6 +245,11 @@ example : V3.norm (qElements 2 (⟨0, 0, 1⟩ : V3 ℝ) ⟨1, 0, 0⟩) = 4 * Rea
   norm_Qvec_eq_Q 2 _ _ (Real.pi / 2) (by norm_num) (by rw [norm_ez]; norm_num) (by rw [norm_ex]; norm_num)
     (by positivity) (by linarith [Real.pi_pos])
     (by rw [Real.cos_pi_div_two]; simp [cosAngle, V3.dot])
+
+/-- the hypotheses of `norm_Qvec_eq_Q_of_two_theta` are satisfiable -/
+example : V3.norm (qElements 2 (⟨0, 0, 1⟩ : V3 ℝ) ⟨1, 0, 0⟩)
+    = Tof.qFromWavelength 1 2 (Beamline.twoTheta (⟨0, 0, 1⟩ : V3 ℝ) ⟨1, 0, 0⟩) :=
+  (norm_Qvec_eq_Q_of_two_theta 2 _ _ (by norm_num) (by simp [V3R.zero]) (by simp [V3R.zero])).1
 
 /-- a non-singular, non-orthogonal `R·UB` -/
 example : M3.det (M3.mul rotZ (ubFromUAndB rotZ (⟨2, 1, 0, 0, 3, 0, 0, 0, 4⟩ : M3 ℝ))) ≠ 0 := by
